@@ -140,13 +140,14 @@ Definition verdict (c : case) : Z :=
     let o := if wf_datab u addrs keys
              then oracle u pool (has_exactb u addrs) (mkO u false [] []) cache_new ops obs
              else 0 in
-    if m then o else if o =? 0 then 1 else o
+    (* known classes (o >= 10) only while the implementation behaves as the model records *)
+    if m then o else if o =? 0 then 1 else 2
   | CState d addrs keys pool ops obs fin =>
     let u := udb_of d in
     let m := list_eqb ans_eqb (st_run u state_new ops) obs &&
              zlist_eqb (keys_sorted (st_bh (st_final u state_new ops))) fin in
     let o := if wf_datab u addrs keys then st_oracle (has_exactb u addrs) u ops obs else 0 in
-    if m then o else if o =? 0 then 1 else o
+    if m then o else if o =? 0 then 1 else 2
   end.
 
 Definition failures (l : list case) := Common.failures verdict l.
